@@ -770,6 +770,10 @@ func mapOrder(u unit) *result {
 				res.Info["schema_x_op_skipped_because_ReadFile_rejects_the_schema"]++
 				continue
 			}
+			if strings.Contains(path, "/schemas/") && first.status() != "ok" {
+				// the harness's own schemas are valid: an operation that fails on them would make every comparison vacuous
+				fatal("%s on the built-in schema %s does not succeed (%s %q): the schema has to be repaired", op.Name, path, first.status(), first.ErrText+first.Panic)
+			}
 			res.Evaluations++
 			reported, textNoted := false, false
 			for r := 1; r < u.Rs && !reported; r++ {
